@@ -478,10 +478,11 @@ impl JsonPlan {
                         b.push(a.last().unwrap().clone());
                         serde_json::to_string(&b).unwrap()
                     });
-                    // every array -> 10^4 elements (copies of its first element)
-                    if f.len() <= 2048 {
-                        emit(&|| format!("[{}]", vec![f.as_str(); 10_000].join(",")));
-                    }
+                    // every array -> 10^4 elements (copies of its first element); fewer copies of a
+                    // large element, so that the document stays below ~1 MB (decoding work is
+                    // proportional to the input and must not be mistaken for a hang)
+                    let copies = 10_000usize.min((1 << 20) / (f.len() + 1)).max(2);
+                    emit(&|| format!("[{}]", vec![f.as_str(); copies].join(",")));
                 }
             }
             Value::Object(o) => {
